@@ -1256,7 +1256,10 @@ def gen_c19(rng, tier):
     wit = [("<<", ">>", '<<rm unwrap-block name="x">>\nif (}) {\n  a_b << tl to="2000-01-01 00:00:00">>あいう<< /tl >>\n}\n<</rm>>\n',
             [(946684801, []), (1420070401, ["x"])]),
            ("[", "]", '\t[tl unwrap-block to="2010-01-01 00:00:00"]\n\tif (r) {\n\t\treturn [tl to="2005-01-01 00:00:00"]}[/tl]\n\t}\n\t[/tl]\n\tfoo\n',
-            [(946684800, []), (1104537600, []), (1262390400, ["x"])])]
+            [(946684800, []), (1104537600, []), (1262390400, ["x"])]),
+           # two adjacent seams: an inline removal at the end of a line followed by a removed own-line element
+           ("<", ">", '<tl to="2010-01-01 00:00:00" unwrap-block>\nif (x) {\n  foo(); <tl to="2005-01-01 00:00:00">x</tl>\n  <tl to="2005-01-01 00:00:00">y</tl>\n}\n</tl>\nz\n',
+            [(1104537600, []), (1262390400, [])])]
     for j, (ds, de, s, chain) in enumerate(wit):
         cid = f"w{j}"
         cases.append(G.dcase(cid, ds, de, s, G.Cfg("tl", "rm", "+00:00", chain[-1][0], tuple(chain[-1][1]))))
